@@ -42,7 +42,16 @@
   9. the assembled refinement `fromMs_sem` / `fromMs_sem_plain`: on the fragment `Tame'` (which
      excludes exactly the group shapes of the findings F5, F21, F22, F6b and some harmless ones),
      for a command that `from_ms` accepts and that has a meaning, both demographies exist and are
-     equivalent (`SemAgree`) — under the decidable `parsersAgree`, or under `PlainTokens`.
+     equivalent (`SemAgree`) — under the decidable `parsersAgree`, or under `PlainTokens`;
+  10. time 0: `from_ms` rejects every command with an `-ej` at time 0 (`fromMs_rejects_join_at_zero`); an `-es`
+      at time 0 is not always rejected (`fromMs_rejects_moves_at_zero_counterexample`), but on the fragment
+      `Tame''` (the first two clauses of `GoodGroup`) an accepted command has at time 0 nothing but `-es 0 i 1`
+      (`fromMs_rejects_moves_at_zero_partial`), and the refinement holds without the time-0 clause
+      (`fromMs_sem'`, `fromMs_sem_plain'`);
+  11. a wider fragment `Tame2` (every time group is a `GoodGroup2`: a population may be split or joined after
+      another population was joined into it; chains of two joins): `applyParams_sem2`, `fromMs_sem2`,
+      `fromMs_sem2_plain`; exact on the table of all groups of at most two `-es`/`-ej` options over three
+      populations (`tame2_exact_on_table`).
 -/
 import DemesVerif.Proofs.FromMsValid
 import DemesVerif.Proofs.FromMsIgnores
@@ -52,6 +61,9 @@ import DemesVerif.Proofs.FromMsFinal
 import DemesVerif.Proofs.FromMsParseAgree
 import DemesVerif.Proofs.FromMsPostTotal
 import DemesVerif.Proofs.FromMsApplyFinal
+import DemesVerif.Proofs.FromMsZeroRun
+import DemesVerif.Proofs.FromMsWideRun
+import DemesVerif.Proofs.FromMsWideTable
 namespace Demes.Theorems.C08
 open Demes Demes.Ms Demes.Spec Demes.Spec.MsSem Demes.Spec.C08
 
@@ -940,12 +952,277 @@ example : SemHyps ["-I", "3", "1", "1", "1", "-ma", "x", "0.25", "0.5", "0.25", 
     = true := by decide +kernel
 example : SemHyps ["-I", "2", "1", "1", "-es", "1.0", "1", "0.25", "-ej", "1.0", "3", "2"] 2 = true := by decide +kernel
 
+/-! ### 10. `-es` / `-ej` at time 0
+
+The third clause of `GoodGroup` ("a group with `-es`/`-ej` is not at time 0") is not needed.
+`from_ms` rejects **every** command with an `-ej` at time 0 (`fromMs_rejects_join_at_zero`: the deme of the
+joined population would start at time 0).  An `-es` at time 0 is **not** always rejected
+(`fromMs_rejects_moves_at_zero_counterexample`: `-es 0 i 1`, which moves no lineage, is accepted — and
+converted correctly); but on the fragment `Tame''` (the first two clauses of `GoodGroup` for every time
+group) an accepted command has at time 0 nothing but `-es 0 i 1` of initial populations
+(`fromMs_rejects_moves_at_zero_partial`), and the refinement holds without the third clause
+(`fromMs_sem'`, `fromMs_sem_plain'`). -/
+
+/-- **`from_ms` rejects every command with an `-ej` at time 0** — whatever else the command says, for
+every `N0`, with or without `deme_names`.  (`args` is what argparse reads off the command line.)  No
+hypothesis about the ms interpreter. -/
+theorem fromMs_rejects_join_at_zero (c : List String) (N0 : Q) (names : Option (List String)) (args : Args)
+    (hargs : parseKnownArgs c = .ok args)
+    (hj : ∃ o i j, Event.join o (.fin 0) i j ∈ args.demographicEvents) :
+    ∃ err, fromMs c N0 names = .error err := by
+  obtain ⟨o, i, j, hmem⟩ := hj
+  exact Proofs.FromMs.fromMs_rejects_join_at_zero names hargs ⟨_, hmem, rfl, rfl⟩
+
+/-- the same stated on the interpreter's parse of the command (`parse c = .ok pr`), when the two
+parsers agree on the command -/
+theorem fromMs_rejects_join_at_zero' (c : List String) (N0 : Q) (names : Option (List String)) (pr : Parsed)
+    (hp : parsersAgree c = true) (hpr : parse c = .ok pr) (hj : ∃ i j, Cmd.join 0 i j ∈ pr.events) :
+    ∃ err, fromMs c N0 names = .error err := by
+  obtain ⟨i, j, hmem⟩ := hj
+  exact Proofs.FromMs.fromMs_rejects_join_at_zero_parsed names hp hpr hmem
+
+def joinAtZero : List String := ["-I", "2", "1", "1", "-ej", "0", "2", "1"]
+def admixAtZero : List String := ["-I", "2", "1", "1", "-es", "0", "1", "0.5", "-ej", "0", "3", "2"]
+
+/-- non-vacuity: the hypotheses hold for `-ej 0 2 1` and for an admixture pair at time 0; the error
+is the `ValueError` of the `start_time` validator ("must be greater than zero") -/
+example : [joinAtZero, admixAtZero].map (fun c => ((parseKnownArgs c).toOption.map (fun args =>
+      args.demographicEvents.any (fun e => match e with | .join _ (.fin 0) _ _ => true | _ => false)),
+    (fromMs c 1 none).toOption.isSome)) = [(some true, false), (some true, false)] := by decide +kernel
+example : (match fromMs joinAtZero 1 none with
+    | .error e => decide (e.kind = .value) && e.msg == "must be greater than zero"
+    | .ok _ => false) = true := by decide +kernel
+example : [joinAtZero, admixAtZero].map (fun c => (parsersAgree c,
+    (parse c).toOption.map (fun pr => pr.events.any (fun x => match x with | .join 0 _ _ => true | _ => false))))
+    = [(true, some true), (true, some true)] := by decide +kernel
+
+def splitAtZero : List String := ["-I", "2", "1", "1", "-es", "0", "1", "1.0"]
+def splitNewAtZero : List String := ["-I", "2", "1", "1", "-es", "0", "1", "1.0", "-es", "0", "3", "0.5"]
+
+/-- **a command with an `-es` at time 0 is not always rejected**: `-es 0 1 1.0` (every lineage stays:
+`p = 1`) is accepted; the graph has the new population as a deme `deme3` that exists from time 0 on
+and receives nothing; the command has a meaning, and the two agree (no lineage movement on either
+side).  So is `-es 0 1 1.0 -es 0 3 0.5` (a split, with `p < 1`, of the still empty new population). -/
+theorem fromMs_rejects_moves_at_zero_counterexample :
+    (parse splitAtZero).toOption.map (·.events) = some [Cmd.split 0 1 1]
+    ∧ (fromMs splitAtZero 1 none).toOption.map (fun mg =>
+        (mg.graph.demes.map (fun d => (d.name, d.startTime, d.endTime)), mg.graph.pulses.length))
+      = some ([("deme1", .inf, 0), ("deme2", .inf, 0), ("deme3", .inf, 0)], 0)
+    ∧ (fromMs splitAtZero 1 none).toOption.map (fun mg => SemAgree (msSem splitAtZero 1) (resultSem mg)) = some true
+    ∧ movesOf (msSem splitAtZero 1) = some []
+    ∧ (parse splitNewAtZero).toOption.map (·.events) = some [Cmd.split 0 1 1, Cmd.split 0 3 (1/2)]
+    ∧ (fromMs splitNewAtZero 1 none).toOption.map (fun mg => SemAgree (msSem splitNewAtZero 1) (resultSem mg)) = some true := by
+  decide +kernel
+
+/-- an `-es` at time 0 that does move lineages is rejected (the `ValueError` of the pulse validator:
+the pulse would be at the end time of its destination) -/
+example : (match fromMs ["-I", "2", "1", "1", "-es", "0", "1", "0.5"] 1 none with
+    | .error e => decide (e.kind = .value) && e.msg == "invalid pulse at dest's end_time"
+    | .ok _ => false) = true := by decide +kernel
+
+/-- **what an accepted command of the fragment `Tame''` has at time 0** (the strongest variant of "moves
+at time 0 are rejected" that is true): if `from_ms` returns a graph, the command has a meaning, the
+parsers agree and every time group satisfies the first two clauses of `GoodGroup`, then the command
+has no `-ej` at time 0, and every `-es 0 i p` of an initial population (`i ≤ npop`) has `p = 1` — it
+moves no lineage. -/
+theorem fromMs_rejects_moves_at_zero_partial (c : List String) (N0 : Q) (mg : MsGraph) (sem : DemogSem) (pr : Parsed)
+    (h : fromMs c N0 none = .ok mg) (hsem : msSem c N0 = .ok sem) (hp : parsersAgree c = true)
+    (hpr : parse c = .ok pr) (ht : Tame'' pr = true) :
+    (∀ i j, Cmd.join 0 i j ∉ pr.events) ∧ (∀ i p, Cmd.split 0 i p ∈ pr.events → i ≤ pr.npop → p = 1) :=
+  Proofs.FromMs.fromMs_zero_partial h hsem hp hpr ht
+
+/-- `Tame'` is the special case of `Tame''` -/
+theorem tame''_of_tame' (pr : Parsed) (h : Tame' pr = true) : Tame'' pr = true :=
+  Proofs.FromMs.tame2_of_tame _ _ h
+
+/-- **the lineage movements of `from_ms`, on the fragment `Tame''`**: `fromMs_moves_partial` without the
+time-0 clause -/
+theorem fromMs_moves' (c : List String) (N0 : Q) (mg : MsGraph) (sem : DemogSem) (pr : Parsed)
+    (h : fromMs c N0 none = .ok mg) (hsem : msSem c N0 = .ok sem) (hp : parsersAgree c = true)
+    (hpr : parse c = .ok pr) (ht : Tame'' pr = true) :
+    ∃ gsem, resultSem mg = .ok gsem ∧ gsem.moves = sem.moves :=
+  Proofs.FromMs.fromMs_moves_tame2 h hsem hp hpr ht
+
+/-- **C08 on the fragment `Tame''`.**  The statement of `fromMs_sem` with `Tame''` — every time group
+satisfies (1) no population is the source of a move after being the target of an earlier move of the
+group and (2) every `-es` has `0 < p ≤ 1` — in place of `Tame'`: the third clause of `GoodGroup` is
+discharged from the acceptance hypothesis `h`. -/
+theorem fromMs_sem' (c : List String) (N0 : Q) (mg : MsGraph) (sem : DemogSem) (pr : Parsed)
+    (h : fromMs c N0 none = .ok mg) (hsem : msSem c N0 = .ok sem) (hp : parsersAgree c = true)
+    (hpr : parse c = .ok pr) (ht : Tame'' pr = true) :
+    SemAgree (msSem c N0) (resultSem mg) = true :=
+  Proofs.FromMs.fromMs_sem_tame2 h hsem hp hpr ht
+
+/-- the same on plain command lines -/
+theorem fromMs_sem_plain' (c : List String) (N0 : Q) (mg : MsGraph) (sem : DemogSem) (pr : Parsed)
+    (h : fromMs c N0 none = .ok mg) (hsem : msSem c N0 = .ok sem) (hpl : PlainTokens c = true)
+    (hpr : parse c = .ok pr) (ht : Tame'' pr = true) :
+    SemAgree (msSem c N0) (resultSem mg) = true := by
+  obtain ⟨args, _, hargs, _, _⟩ := Proofs.FromMs.fromMs_buildState h
+  exact fromMs_sem' c N0 mg sem pr h hsem (Proofs.FromMsParse.parsersAgree_of_plain hpl hargs hpr) hpr ht
+
+/-- non-vacuity of `fromMs_sem_plain'` and of `fromMs_rejects_moves_at_zero_partial`: every hypothesis
+holds (and so does the conclusion) for the command with `-es 0 1 1.0`, which is outside `Tame'`; and for
+the examples of §9 -/
+def SemHyps' (c : List String) (N0 : Q) : Bool :=
+  match fromMs c N0 none, msSem c N0, parse c with
+  | .ok mg, .ok _, .ok pr => PlainTokens c && Tame'' pr && SemAgree (msSem c N0) (resultSem mg)
+  | _, _, _ => false
+
+example : SemHyps' splitAtZero 1 = true ∧ (parse splitAtZero).toOption.map Tame' = some false := by decide +kernel
+example : SemHyps' (splitAtZero ++ ["-ej", "1.0", "3", "2", "-ej", "2.0", "2", "1"]) 1 = true := by decide +kernel
+example : SemHyps' ["-I", "2", "1", "1", "0.5", "-g", "1", "1.0", "-en", "0.5", "1", "2", "-ej", "1.0", "2", "1", "-t", "5", "-T"] 1
+    = true := by decide +kernel
+example : SemHyps' ["-I", "2", "1", "1", "-es", "1.0", "1", "0.25", "-ej", "1.0", "3", "2"] 2 = true := by decide +kernel
+/-- `Tame''` still excludes the findings (and `splitNewAtZero`, whose second `-es` splits a target) -/
+example : [f5, f21, f22, f6b, splitNewAtZero].map (fun c => (parse c).toOption.map Tame'')
+    = [some false, some false, some false, some false, some false] := by decide +kernel
+
+/-! ### 11. a wider fragment: `GoodGroup2`
+
+How `build_graph` turns the moves of one time group into ancestry and pulses: `split_join_params` gets an
+entry `(g, h, q)` per `-es` (source, new population, `1 - p`) and per `-ej` (source, target, `1`) — but an
+`-ej i j` first looks for the last entry whose target is `i` and redirects it to `j` instead (this is how
+`-es … -ej n+1 k` becomes an admixture; it also contracts a chain `-ej a b … -ej b c` into `a → c` and leaves
+`b` without an entry).  After the group, for every entry `(g, _, q)`: if row `g` of the lineage-movement
+matrix has nothing off the diagonal, nothing; if its diagonal is zero (the population was joined), the
+deme gets **its whole row** as ancestors and proportions; otherwise a pulse `(h → g, q)` at the time.
+
+Consequences: (i) a join `a → b` followed by a split of `b` is converted correctly — the row of `a`, which
+feels the split of `b`, is written wholesale, and the pulses of `b` do not touch it; (ii) in a chain
+`a → b`, `b → c`, the deme of `b` keeps the ancestry `[c]` the `-ej` wrote, which is right as long as nothing
+moves out of `c` afterwards (F22 is exactly the case where it does).  What goes wrong is a move out of a
+population that received lineages by an `-es` in the same group (its row does not know about them: F5, F21).
+
+`GoodGroup2 n cmds` (Spec/C08.lean; decidable): on the moves `groupOps n cmds`, (1') a population is the source
+of a move after being the target of an earlier move only if that earlier move is a join (`q = 1`)
+(`sourceAfterJoinOnly`); (1'') if moreover the later move is a join too — a chain `a → b`, `b → c` — then no
+later move has `c` as its source (`chainsEnd`); (2) every `-es` has `0 < p ≤ 1`.  No clause about time 0
+(§10).  `Tame2 pr`: every time group is a `GoodGroup2`. -/
+
+/-- **`applyParams_sem` for `GoodGroup2`**: the statement of `applyParams_sem` with `GoodGroup2` in place of
+`GoodGroup`, for a Builder state in which the demes of the populations that are not joined have no
+`proportions` (`PropNone`, an invariant of the event loop on the fragment). -/
+theorem applyParams_sem2 (N0 T T' : Q) (s s1 : BState) (g1 : GState) (σ σ1 : St) (L1 : List (Nat × Row))
+    (evs : List (Event Num))
+    (hsim : Proofs.FromMs.SizeSim T s σ) (hT : T ≤ T') (hall : ∀ e ∈ evs, Proofs.FromMs.HasCmd e)
+    (htime : ∀ e ∈ evs, 4 * N0 * (Proofs.FromMs.cmdOfD e).t = T')
+    (hm : evs.foldlM (stepEvent N0 T') (s, { lm := Proofs.FromMs.initLm s evs, params := [] }) = .ok (s1, g1))
+    (hs : (evs.map Proofs.FromMs.cmdOfD).foldlM (MsSem.step N0) (σ, Proofs.FromMs.initL σ) = .ok (σ1, L1))
+    (hgood : GoodGroup2 s.numDemes (evs.map Proofs.FromMs.cmdOfD) = true) (hT0 : T' ≠ 0)
+    (hnames : Proofs.FromMs.NameInv s) (hprop : Proofs.FromMs.PropNone s)
+    (hend : ∀ (j : Nat) (d : BDeme), s.demes[j]? = some d → bEndTime d < T')
+    (hst : ∀ (j : Nat) (d : BDeme), s.demes[j]? = some d → d.startTime = .inf ∨ ∃ t, d.startTime = .fin t ∧ t < T')
+    (hpul : ∀ p ∈ s.pulses.getD [], p.time ≠ T') :
+    ∃ L2, groupMoves (popNames (applyParams T' s1 g1).numDemes) T' (applyParams T' s1 g1).demes
+        ((applyParams T' s1 g1).pulses.getD []) = .ok L2 ∧ canonRows L2 = canonRows L1 :=
+  Proofs.FromMs.applyParams_semW hsim hT hall htime hm hs hgood hT0 hnames hprop hend hst hpul
+
+/-- `GoodGroup2` contains `GoodGroup` (indeed every group that satisfies its first two clauses) -/
+theorem goodGroup2_of_goodGroup (n : Nat) (cmds : List Cmd) (h : GoodGroup n cmds = true) : GoodGroup2 n cmds = true := by
+  apply Proofs.FromMs.goodGroup2_of_12
+  unfold GoodGroup at h
+  unfold GoodGroup12
+  simp only [Bool.and_eq_true] at h ⊢
+  exact h.1
+
+/-- `Tame2` contains `Tame''` (hence `Tame'`) -/
+theorem tame2_of_tame'' (pr : Parsed) (h : Tame'' pr = true) : Tame2 pr = true :=
+  Proofs.FromMs.tameW_of_tame2 _ _ h
+
+/-- **the lineage movements of `from_ms`, on the fragment `Tame2`** -/
+theorem fromMs_moves2 (c : List String) (N0 : Q) (mg : MsGraph) (sem : DemogSem) (pr : Parsed)
+    (h : fromMs c N0 none = .ok mg) (hsem : msSem c N0 = .ok sem) (hp : parsersAgree c = true)
+    (hpr : parse c = .ok pr) (ht : Tame2 pr = true) :
+    ∃ gsem, resultSem mg = .ok gsem ∧ gsem.moves = sem.moves :=
+  Proofs.FromMs.fromMs_moves_wide h hsem hp hpr ht
+
+/-- **C08 on the fragment `Tame2`.**  If `from_ms` returns a graph for the command, the command has a
+meaning under the ms interpreter, the two parsers agree on it and every time group of the command is a
+`GoodGroup2`, then both demographies exist and are equivalent (`SemAgree`). -/
+theorem fromMs_sem2 (c : List String) (N0 : Q) (mg : MsGraph) (sem : DemogSem) (pr : Parsed)
+    (h : fromMs c N0 none = .ok mg) (hsem : msSem c N0 = .ok sem) (hp : parsersAgree c = true)
+    (hpr : parse c = .ok pr) (ht : Tame2 pr = true) :
+    SemAgree (msSem c N0) (resultSem mg) = true :=
+  Proofs.FromMs.fromMs_sem_wide h hsem hp hpr ht
+
+/-- the same on plain command lines -/
+theorem fromMs_sem2_plain (c : List String) (N0 : Q) (mg : MsGraph) (sem : DemogSem) (pr : Parsed)
+    (h : fromMs c N0 none = .ok mg) (hsem : msSem c N0 = .ok sem) (hpl : PlainTokens c = true)
+    (hpr : parse c = .ok pr) (ht : Tame2 pr = true) :
+    SemAgree (msSem c N0) (resultSem mg) = true := by
+  obtain ⟨args, _, hargs, _, _⟩ := Proofs.FromMs.fromMs_buildState h
+  exact fromMs_sem2 c N0 mg sem pr h hsem (Proofs.FromMsParse.parsersAgree_of_plain hpl hargs hpr) hpr ht
+
+/-! #### non-vacuity and the boundary of `GoodGroup2` -/
+
+/-- **the boundary**: the group shapes of the findings are outside `GoodGroup2` — F5 (a split of the
+population an earlier split of the group created), F21 (interleaved pairs), F22 (a chain of joins followed
+by a split of its end), F6b (`p = 0`) — and the two shapes of §8 that `GoodGroup` excludes although they
+are converted correctly are inside: a join followed by a split of its target, a chain of two joins -/
+example : GoodGroup2 2 [.split 1 2 (1/2), .split 1 3 (1/2)] = false
+    ∧ GoodGroup2 3 [.split 1 2 (3/4), .split 1 1 (1/8), .join 1 4 1, .join 1 5 3] = false
+    ∧ GoodGroup2 3 [.join 1 2 3, .join 1 3 1, .split 1 1 (1/4)] = false
+    ∧ GoodGroup2 2 [.split (3/8) 2 0, .join (3/8) 3 1] = false
+    ∧ GoodGroup2 2 [.join 1 1 2, .split 1 2 (1/2)] = true
+    ∧ GoodGroup2 3 [.join 1 2 3, .join 1 3 1] = true := by decide +kernel
+
+/-- the commands: the findings are outside `Tame2`; `joinThenSplit`, `chainSameTime`, the examples of §8 and
+`splitAtZero` are inside (and outside `Tame'`) -/
+example : [f5, f21, f22, f6b].map (fun c => (parse c).toOption.map Tame2) = [some false, some false, some false, some false] := by
+  decide +kernel
+example : [joinThenSplit, chainSameTime, threePairs, star, twoAncestors, splitAtZero].map (fun c => (parse c).toOption.map Tame2)
+    = [some true, some true, some true, some true, some true, some true] := by decide +kernel
+
+/-- non-vacuity of `fromMs_sem2_plain`: every hypothesis holds (and so does the conclusion) -/
+def SemHyps2 (c : List String) (N0 : Q) : Bool :=
+  match fromMs c N0 none, msSem c N0, parse c with
+  | .ok mg, .ok sem, .ok pr => PlainTokens c && Tame2 pr && SemAgree (msSem c N0) (resultSem mg) && !sem.moves.isEmpty
+  | _, _, _ => false
+
+example : SemHyps2 joinThenSplit 1 = true ∧ SemHyps2 chainSameTime 1 = true := by decide +kernel
+/-- a join into a population that is then split twice and admixed; a chain after own splits of its middle
+population; N0 = 2 -/
+example : SemHyps2 ["-I", "3", "1", "1", "1", "-ej", "1.0", "1", "2", "-es", "1.0", "2", "0.5", "-es", "1.0", "2", "0.25",
+    "-es", "1.0", "3", "0.75", "-ej", "1.0", "6", "2"] 2 = true := by decide +kernel
+example : SemHyps2 ["-I", "3", "1", "1", "1", "-es", "1.0", "2", "0.5", "-ej", "1.0", "1", "2", "-ej", "1.0", "2", "3"] 1 = true := by
+  decide +kernel
+/-- what `from_ms` writes for `chainSameTime`: deme2 gets its row (`[deme1]`), deme3 keeps the ancestry of its `-ej` -/
+example : (fromMs chainSameTime 1 none).toOption.map (fun mg => mg.graph.demes.map (fun d => (d.name, d.ancestors, d.proportions)))
+    = some [("deme1", [], []), ("deme2", ["deme1"], [1]), ("deme3", ["deme1"], [1])] := by decide +kernel
+/-- … and for `joinThenSplit`: deme1 gets its whole row (half to deme2, half to the new deme3), deme2 a pulse -/
+example : (fromMs joinThenSplit 1 none).toOption.map (fun mg => mg.graph.demes.map (fun d => (d.name, d.ancestors, d.proportions)))
+    = some [("deme2", [], []), ("deme3", [], []), ("deme1", ["deme2", "deme3"], [1/2, 1/2])] := by decide +kernel
+example : (fromMs joinThenSplit 1 none).toOption.map (fun mg => mg.graph.pulses.map (fun p => (p.sources, p.dest, p.proportions)))
+    = some [(["deme3"], "deme2", [1/2])] := by decide +kernel
+
+/-- **`Tame2` is exact on a small table.**  The table `Proofs.FromMs.tabCmds` — the quantifier of this theorem
+is a finite table, checked entry by entry by the kernel — consists of the 600 commands `-I 3 1 1 1` followed
+by one or two options out of `-es 1.0 i 0.5` (`i ≤ 4`) and `-ej 1.0 i j` (`i ≠ j ≤ 5`).  For every command of
+the table that both `from_ms` and the ms interpreter accept (81 of them): the command is in `Tame2` if and
+only if the lineage movements of the graph are those of the interpreter. -/
+theorem tame2_exact_on_table : ∀ c ∈ Proofs.FromMs.tabCmds, ∀ inside correct,
+    Proofs.FromMs.tabClass c = some (inside, correct) → inside = correct :=
+  Proofs.FromMs.tab_exact
+
+/-- the counts on that table: (inside & correct, inside & wrong, outside & correct, outside & wrong).  With
+three options (44 135 commands, 807 accepted; evaluated, not kernel-checked) the counts are (564, 0, 126, 117):
+`Tame2` is sufficient but no longer exact — e.g. `-es 1 p -es 4 p' -ej 1 2` is converted correctly (the row of
+the joined population 1 is written wholesale), and so is `-es 1 p -ej 4 2 -es 2 p'` (two pulses that compose in
+command order).  With three options and `p ∈ {1/2, 1, 1/4}` (the enumeration quoted at the end of §8):
+(3231, 0, 1548, 696), against (2662, 0, 2118, 696) for `Tame'`; with exactly four options: (3180, 0, 3219, 2346). -/
+theorem tame2_table_counts : Proofs.FromMs.tabCounts = (78, 0, 0, 3) :=
+  Proofs.FromMs.tab_counts
+
 /-! ### what is missing
 
-1. `GoodGroup` is a sufficient condition; the exact set of groups that `applyParams` encodes
-   faithfully is larger (see `joinThenSplit`, `chainSameTime`);
-2. that a command with `-es`/`-ej` at time 0 is always rejected by `from_ms` (so that the third clause
-   of `GoodGroup` could be dropped) is not proved;
+1. `GoodGroup2` (§11) is a sufficient condition, exact for groups of at most two `-es`/`-ej` options over three
+   populations (`tame2_exact_on_table`); with three options there are correctly converted groups outside it
+   (a move out of a population that received lineages by an `-es`, when the source of that `-es` is joined in
+   the same group, or when both moves end up as pulses in command order; see `tame2_table_counts`);
+2. a command with an `-es` at time 0 is not always rejected (`fromMs_rejects_moves_at_zero_counterexample`); what
+   is proved is that every `-ej` at time 0 is, and that on `Tame''` an accepted command has at time 0 nothing
+   but `-es 0 i 1` of initial populations; a Model-only statement for `-es` (without the interpreter) is not proved;
 3. outside `PlainTokens` the agreement of the two parsers stays the decidable hypothesis
    `parsersAgree` (the parsers genuinely differ there: `parsers_differ_*`). -/
 
